@@ -23,7 +23,7 @@ template <class T, size_t N> struct rhs_t<T, N, 0> { using type = Tensor<T, N>; 
 // FORM 0: solve<ST>(A,b)   1: solve<ST>(A+0,b)   2: solve<ST>(A,b+0)   3: solve<ST>(A+0,b+0)
 // FORM 4: x (zero) += solve<ST>(A*1, b+0)   (solve used inside an expression, compound assignment as in test_solve)
 template <class T, size_t N, size_t K, int ST, int FORM>
-void thunk(const T *a, const T *b, const size_t *, T *x) {
+void thunk(const T *a, const T *b, const size_t *, T *x) { vf::ArmedThunk vf_armed_;
   constexpr SolveCompType st = static_cast<SolveCompType>(ST);
   using R = typename rhs_t<T, N, K>::type;
   Tensor<T, N, N> A; std::copy(a, a + N * N, A.data());
@@ -39,7 +39,7 @@ void thunk(const T *a, const T *b, const size_t *, T *x) {
 
 // WHICH 0: internal::forward_subs(L,b)   1: internal::forward_subs(L,p,b)   2: internal::backward_subs(U,y)
 template <class T, size_t N, size_t K, int WHICH>
-void sthunk(const T *a, const T *b, const size_t *p, T *x) {
+void sthunk(const T *a, const T *b, const size_t *p, T *x) { vf::ArmedThunk vf_armed_;
   using R = typename rhs_t<T, N, K>::type;
   Tensor<T, N, N> A; std::copy(a, a + N * N, A.data());
   R B; std::copy(b, b + rhs_t<T, N, K>::size, B.data());
